@@ -13,7 +13,9 @@ RULE = (
     "every step's observation and the final drain of every live query are compared with the list model"
 )
 ASSUMPTIONS = [
-    "match sequences are produced by jsonpath.query('$[*]', [10..10+L-1]) (distinct values, value != index)",
+    "match sequences are produced by jsonpath.query('$[*]', [10..10+L-1]) (distinct values, value != index); two more "
+    "sources to depth 2 (thorough: 3): the same node matched repeatedly ($[0,1,0,2,1,0] on three elements) and distinct nodes "
+    "holding equal values",
     "views and plain iteration are drained completely when invoked",
     "after tee() the parent query is retired (docs: not safe to use)",
     "reference model mc/ref/rquery.py (list slicing), self-tested on every run",
@@ -62,6 +64,10 @@ def plan(tier, seed):
             shards.append(("hist", L, None, 0, True))
             for first in range(nl):
                 shards.append(("hist", L, first, 3, True))
+        for mode in ("dupnode", "dupval"):
+            for L in (2, 4):
+                for first in range(len(letters(L))):
+                    shards.append(("hist", L, first, 2, True, mode))
         # one complete block of the thorough tier chosen by the seed (quick is a subset of thorough)
         nl = len(letters(3))
         a = seed % nl
@@ -76,6 +82,10 @@ def plan(tier, seed):
             nl = len(letters(L, False))
             for first in range(nl):
                 shards.append(("hist", L, first, 5, False))
+        for mode in ("dupnode", "dupval"):
+            for L in range(1, 6):
+                for first in range(len(letters(L))):
+                    shards.append(("hist", L, first, 3, True, mode))
     return shards
 
 
@@ -94,12 +104,13 @@ def _enum(state, hist, depth, L, aliases, acc_fn):
 def run_shard(shard, acc):
     kind = shard[0]
     if kind == "hist":
-        _, L, first, depth, aliases = shard
-        sub = "hist.d%d%s" % (depth, "" if aliases else ".noalias")
+        _, L, first, depth, aliases = shard[:5]
+        mode = shard[5] if len(shard) > 5 else "plain"
+        sub = "hist.d%d%s%s" % (depth, "" if aliases else ".noalias", "" if mode == "plain" else "." + mode)
         state = (tuple(range(L)),)
 
         def visit(hist):
-            _run(sub, L, hist, acc)
+            _run(sub, L, hist, acc, mode=mode)
 
         if first is None:
             visit([])
@@ -125,23 +136,41 @@ def run_shard(shard, acc):
         _enum(s2, [[0, op, n], [0, op2, n2]], depth, L, aliases, visit)
 
 
-def _expected_view(op, elems):
+DUP_PATTERN = [0, 1, 0, 2, 1, 0]
+
+
+def source(mode, L):
+    """-> (document, query text, [(index in the document, value)] per position of the match sequence)."""
+    if mode == "dupnode":
+        # the same node matched more than once (a repeated selector): positions differ, path and value coincide
+        idx = DUP_PATTERN[:L]
+        doc = [10, 11, 12]
+        return doc, "$[%s]" % ",".join(str(i) for i in idx) if idx else "$[5]", [(i, doc[i]) for i in idx]
+    if mode == "dupval":
+        # distinct nodes holding equal values
+        doc = [10 + (i % 2) for i in range(L)]
+        return doc, "$[*]", [(i, doc[i]) for i in range(L)]
+    doc = [10 + i for i in range(L)]
+    return doc, "$[*]", [(i, doc[i]) for i in range(L)]
+
+
+def _expected_view(op, elems, seq):
     if op in ("values", "iter"):
-        return [10 + i for i in elems]
+        return [seq[e][1] for e in elems]
     if op == "locations":
-        return ["$[%d]" % i for i in elems]
+        return ["$[%d]" % seq[e][0] for e in elems]
     if op == "items":
-        return [("$[%d]" % i, 10 + i) for i in elems]
-    return ["/%d" % i for i in elems]
+        return [("$[%d]" % seq[e][0], seq[e][1]) for e in elems]
+    return ["/%d" % seq[e][0] for e in elems]
 
 
-def _run(sub, L, hist, acc, record=True):
+def _run(sub, L, hist, acc, record=True, mode="plain"):
     """Execute one history on fresh real objects in lock-step with the model."""
     import jsonpath
     from jsonpath import Query
 
-    doc = [10 + i for i in range(L)]
-    live = [jsonpath.query("$[*]", doc)]
+    doc, qtext, seq = source(mode, L)
+    live = [jsonpath.query(qtext, doc)]
     state = (tuple(range(L)),)
     nontrivial = False
     trace = []
@@ -168,8 +197,7 @@ def _run(sub, L, hist, acc, record=True):
                 if m is None:
                     obs = ("match", None)
                 else:
-                    idx = m.obj - 10
-                    obs = ("match", idx) if m.path == "$[%d]" % idx else ("match-badpath", m.path)
+                    obs = ("match", (m.path, m.obj))
             else:
                 if op == "iter":
                     got = [m.obj for m in q]
@@ -183,13 +211,14 @@ def _run(sub, L, hist, acc, record=True):
         except Exception as e:  # noqa: BLE001
             obs = ("exc", type(e).__name__, str(e)[:80])
         if exp[0] == "list":
-            expv = ("list", op, _expected_view(op, exp[2]))
+            expv = ("list", op, _expected_view(op, exp[2], seq))
             if exp[2]:
                 nontrivial = True
+        elif exp[0] == "match" and exp[1] is not None:
+            expv = ("match", ("$[%d]" % seq[exp[1]][0], seq[exp[1]][1]))
+            nontrivial = True
         else:
             expv = exp
-            if exp[0] == "match" and exp[1] is not None:
-                nontrivial = True
         trace.append(obs[0])
         if record:
             acc.count("op." + op)
@@ -208,10 +237,10 @@ def _run(sub, L, hist, acc, record=True):
                 acc.count("live>=3")
             for i, q in enumerate(live):
                 try:
-                    got = [m.obj for m in q]
+                    got = [(m.path, m.obj) for m in q]
                 except Exception as e:  # noqa: BLE001
                     got = ("exc", type(e).__name__)
-                exp = [10 + j for j in state[i]]
+                exp = [("$[%d]" % seq[j][0], seq[j][1]) for j in state[i]]
                 if exp:
                     nontrivial = True
                 if record:
@@ -219,9 +248,9 @@ def _run(sub, L, hist, acc, record=True):
                 if got != exp:
                     bad = ("drain%d" % i, exp, got)
                     break
-    case = {"L": L, "history": [list(h) for h in hist]}
+    case = {"L": L, "history": [list(h) for h in hist], "mode": mode}
     if record:
-        acc.case(sub, (L, tuple(map(tuple, hist))), outcome=(tuple(trace), tuple(map(len, state))),
+        acc.case(sub, (mode, L, tuple(map(tuple, hist))), outcome=(tuple(trace), tuple(map(len, state))),
                  nontrivial=nontrivial, trans=len(hist) + len(state))
         if acc.evals % 5000 == 1:
             acc.sample(sub, case)
@@ -230,7 +259,7 @@ def _run(sub, L, hist, acc, record=True):
 
 
 def check_case(sub, case, acc):
-    _run(sub, case["L"], case["history"], acc, record=False)
+    _run(sub, case["L"], case["history"], acc, record=False, mode=case.get("mode", "plain"))
 
 
 def shrink(sub, case):
@@ -239,14 +268,14 @@ def shrink(sub, case):
     for i in range(len(hist)):
         cand = hist[:i] + hist[i + 1:]
         if _valid(L, cand):
-            yield {"L": L, "history": cand}
+            yield {"L": L, "history": cand, "mode": case.get("mode", "plain")}
     if L > 0:
         cand = [[qi, op, (min(n, L) if isinstance(n, int) else n)] for qi, op, n in hist]
         if _valid(L - 1, cand):
-            yield {"L": L - 1, "history": cand}
+            yield {"L": L - 1, "history": cand, "mode": case.get("mode", "plain")}
     for i, (qi, op, n) in enumerate(hist):
         if isinstance(n, int) and n > 0:
-            yield {"L": L, "history": hist[:i] + [[qi, op, n - 1]] + hist[i + 1:]}
+            yield {"L": L, "history": hist[:i] + [[qi, op, n - 1]] + hist[i + 1:], "mode": case.get("mode", "plain")}
 
 
 def _valid(L, hist):
